@@ -296,6 +296,42 @@ func main() {
 	addBool("sync_put_backups_before_local", index(spCalls, "Process") >= 0 && index(spCalls, "Process") < index(spCalls, "putEntryOnFragment"),
 		"syncPutOnCluster writes the backups before the local copy")
 
+	// ---- structural facts: client paths (C15)
+	phGo := parse("internal/dmap/put_handlers.go")
+	ph := funcDecl(phGo, "Service", "putCommandHandler")
+	nsw := 0
+	if ph != nil {
+		ast.Inspect(ph.Body, func(n ast.Node) bool {
+			if sw, ok := n.(*ast.SwitchStmt); ok && sw.Tag == nil {
+				nsw++
+			}
+			return true
+		})
+	}
+	addBool("put_handler_options_independent", nsw >= 2, "putCommandHandler decodes NX/XX and the expiry option in separate switch statements")
+	dput := funcDecl(putGo, "DMap", "put")
+	addBool("expire_forwarded_as_pexpire", strings.Contains(src(dput), "NewPExpire"), "DMap.put forwards OnlyUpdateTTL requests as DM.PEXPIRE")
+	delGo := parse("internal/dmap/delete.go")
+	dk := funcDecl(delGo, "DMap", "deleteKeys")
+	early := false
+	if dk != nil {
+		ast.Inspect(dk.Body, func(n ast.Node) bool {
+			if rs, ok := n.(*ast.RangeStmt); ok && strings.Contains(src(rs.X), "members") {
+				ast.Inspect(rs.Body, func(m ast.Node) bool {
+					if ret, isret := m.(*ast.ReturnStmt); isret {
+						// a return of a nil error inside the loop ends the iteration early
+						if len(ret.Results) == 2 && strings.Contains(src(ret.Results[1]), "cmd.Err()") {
+							early = true
+						}
+					}
+					return true
+				})
+			}
+			return true
+		})
+	}
+	addBool("del_forward_returns_early", early, "deleteKeys returns from inside the per-member loop with the forwarded command's status")
+
 	// ---- write
 	sort.SliceStable(facts, func(i, j int) bool { return false })
 	var sb strings.Builder
